@@ -148,6 +148,28 @@ def T():
     @add("switch-nomatch")
     def _(h, i): return [("rec", i.id(), ("switch", 9, [(1, [i.m()] + h), (2, [i.m()])], None)), i.m()]
 
+    # case statements evaluated in a nested scope of the switch body: the first match still wins, a matching case ends
+    # only the block it stands in, later matching cases (same literal, a fall-through group, the other branch in a later
+    # loop iteration) do not replace it
+    @add("switch-case-in-call-then-same-case")
+    def _(h, i): return [("rec", i.id(), ("switchb", 2, [("call", None, [i.m(), ("case", 2, [i.m()] + h + [("lit", 21)]), i.m()]), i.m(),
+                                                      ("case", 2, [i.m(), ("lit", 22)]), ("default", [i.m(), ("lit", 23)])]))]
+
+    @add("switch-case-in-if-then-fallthrough-group")
+    def _(h, i): return [("rec", i.id(), ("switchb", "b", [("if", True, [("case", "b", [i.m()] + h + [("lit", 24)])], None), ("case", "a", None),
+                                                        ("case", "b", [i.m(), ("lit", 25)]), ("default", [i.m(), ("lit", 26)])]))]
+
+    @add("switch-case-in-foreach-branches")
+    def _(h, i): return [("rec", i.id(), ("switchb", 7, [("foreach", [1, 2, 3], [i.m(), ("if", ("xgt", 1), [("case", 7, [i.m(), ("lit", 27)])],
+                                                                                      [("case", 7, [i.m()] + h + [("lit", 28)])])]), i.m()]))]
+
+    @add("switch-nested-case-distinct")
+    def _(h, i): return [("rec", i.id(), ("switchb", 2, [("default", [i.m(), ("lit", 29)]), ("if", True, [("case", 1, [i.m()]), ("case", 2, [i.m()] + h + [("lit", 30)]), i.m()], None),
+                                                      ("case", 3, [i.m()]), i.m()]))]
+
+    @add("switch-nested-nomatch-default")
+    def _(h, i): return [("rec", i.id(), ("switchb", 9, [("call", None, [("case", 1, [i.m()]), i.m()]), ("default", [i.m()] + h + [("lit", 31)]), ("case", 2, [i.m()])]))]
+
     @add("switch-bool")
     def _(h, i): return [("rec", i.id(), ("switch", True, [(False, [i.m()]), (True, [i.m()] + h + [("lit", 18)])], None))]
 
